@@ -309,6 +309,9 @@ class P:
             return ('closure', [('tail', s.expr())], params)
         if v == 'unsafe':
             s.eat(); s.eat('{'); b = s.block(); s.eat('}'); return ('unsafe', b)
+        if v in ('break', 'return') and k == 'id':
+            s.eat(); e = ('unit',) if (s.at(';') or s.at('}') or s.at(',')) else s.expr()
+            return ('brk' if v == 'break' else 'ret', e)
         if v == 'if':
             s.eat()
             if s.at('let'):
@@ -815,6 +818,10 @@ def poll_shape(repo):
                     if (pat[0] in ('pok', 'psome')) == c[1]: return blk(b)
                 raise TErr('poll: match without a matching arm')
             if e[0] == 'unsafe': return blk(e[1])
+            if e[0] in ('brk', 'ret'):
+                name = 'PReady' if mentions(e[1], ('Ready',)) else ('PPending' if mentions(e[1], ('Pending',)) else None)
+                if name is None: raise TErr('poll: break / return with an unknown value')
+                raise Brk(name)
             # anything else must not hide an attempt or a registration
             if mentions(e, ('register_waker',)) or (mentions(e, opnames()) and mentions(e, ('iter',)) and e[0] not in ('mcall', 'path', 'field')):
                 raise TErr('poll: attempt / registration in an unexpected position')
@@ -896,13 +903,24 @@ def async_table(repo):
                 item = P(lex(find_fn(body, fm.group(1)))).fn_item()
                 fparams = [pn for pn, _ in item[2]]
                 b = item[4]
-                if len(b) != 1 or b[0][0] != 'tail': raise TErr('inner fn is not a single expression')
-                e = b[0][1]
-                while e[0] in ('paren', 'unsafe'):
-                    if e[0] == 'paren': e = e[1]
-                    else:
-                        if len(e[1]) != 1 or e[1][0][0] != 'tail': raise TErr('unsafe block with more than the call')
-                        e = e[1][0][1]
+                # plain `let name = <expr>;` aliases in front of the call are substituted
+                sub = {}
+                def subst(x):
+                    if isinstance(x, tuple):
+                        if x[0] == 'path' and len(x[1]) == 1 and x[1][0] in sub: return sub[x[1][0]]
+                        return tuple(subst(y) for y in x)
+                    if isinstance(x, list): return [subst(y) for y in x]
+                    return x
+                def strip_blocks(bb):
+                    while True:
+                        while bb and bb[0][0] == 'let' and bb[0][1][0] == 'pvar' and len(bb) > 1:
+                            sub[bb[0][1][1]] = subst(bb[0][2]); bb = bb[1:]
+                        if len(bb) != 1 or bb[0][0] != 'tail': raise TErr('inner fn is not a single expression')
+                        e1 = bb[0][1]
+                        while e1[0] == 'paren': e1 = e1[1]
+                        if e1[0] == 'unsafe': bb = e1[1]; continue
+                        return subst(e1)
+                e = strip_blocks(b)
                 if not (e[0] == 'mcall' and e[2] == name): raise TErr(f'attempts `{e[2] if e[0] == "mcall" else e[0]}` instead of `{name}`')
                 r = e[1]
                 if not (r[0] == 'mcall' and r[2] == 'inner_mut' and not r[3] and r[1] == ('path', [fparams[0]])): raise TErr('not called on s.inner_mut()')
